@@ -12,6 +12,7 @@ import (
 	"sort"
 	"strconv"
 	"strings"
+	"sync"
 	"sync/atomic"
 	"testing"
 	"time"
@@ -46,6 +47,7 @@ type vChunk struct {
 	chunk    Chunk[dsmrtest.Tx]
 	cert     *ChunkCertificate // honest certificate (nil for invalid chunks)
 	badCert  *ChunkCertificate // same reference, signature that does not verify
+	partCert *ChunkCertificate // honest reference, signer set reduced to the producer (quorum < 1/1)
 	producer int
 	valid    bool
 }
@@ -205,7 +207,11 @@ func newVUniverse(t *testing.T) *vUniverse {
 			sig := *found.Cert.Signature
 			sig.Signature[5] ^= 0xff
 			bad.Signature = &sig
-			vc := &vChunk{idx: i + 1, chunk: found.Chunk, cert: found.Cert, badCert: &bad, producer: prodIdx[n.ID], valid: true}
+			part := *found.Cert
+			psig := *found.Cert.Signature
+			psig.Signers = getSignerBitSet(t, n.chainState, n.ID).Bytes()
+			part.Signature = &psig
+			vc := &vChunk{idx: i + 1, chunk: found.Chunk, cert: found.Cert, badCert: &bad, partCert: &part, producer: prodIdx[n.ID], valid: true}
 			u.chunks = append(u.chunks, vc)
 		} else {
 			c, err := newChunk(UnsignedChunk[dsmrtest.Tx]{
@@ -265,7 +271,12 @@ type vScriptClient struct {
 	calls    int
 	panicked atomic.Bool
 	peer     *GetChunkHandler[dsmrtest.Tx]
+	dead     set.Set[ids.NodeID] // validators that are unreachable during this accept
+	deadHits int
 }
+
+// a node that keeps asking unreachable validators only is cut off after this many attempts
+const vMaxDeadHits = 300
 
 var errVSend = errors.New("scripted send failure")
 
@@ -284,8 +295,17 @@ func (*vScriptClient) AppRequestAny(context.Context, []byte, p2p.AppResponseCall
 }
 func (*vScriptClient) AppGossip(context.Context, common.SendConfig, []byte) error { return nil }
 
-func (s *vScriptClient) AppRequest(ctx context.Context, _ set.Set[ids.NodeID], reqBytes []byte, cb p2p.AppResponseCallback) error {
+func (s *vScriptClient) AppRequest(ctx context.Context, to set.Set[ids.NodeID], reqBytes []byte, cb p2p.AppResponseCallback) error {
 	s.calls++
+	if s.dead.Overlaps(to) {
+		// the addressed validator is unreachable: the request fails, nothing of the script is consumed
+		s.deadHits++
+		if s.deadHits > vMaxDeadHits {
+			return errVSend
+		}
+		go s.guard(func() { cb(ctx, ids.EmptyNodeID, nil, common.ErrTimeout) })
+		return nil
+	}
 	if len(s.script) == 0 {
 		return errVSend
 	}
@@ -314,6 +334,39 @@ func (s *vScriptClient) AppRequest(ctx context.Context, _ set.Set[ids.NodeID], r
 		go s.guard(func() { cb(ctx, ids.EmptyNodeID, rb, nil) })
 	}
 	return nil
+}
+
+// vGateDB lets the harness hold a batch write right before it reaches the database
+type vGateDB struct {
+	database.Database
+	mu               sync.Mutex
+	entered, release chan struct{}
+}
+
+func (db *vGateDB) gate() (entered, release chan struct{}) {
+	db.mu.Lock()
+	defer db.mu.Unlock()
+	db.entered, db.release = make(chan struct{}), make(chan struct{})
+	return db.entered, db.release
+}
+
+func (db *vGateDB) NewBatch() database.Batch { return &vGateBatch{Batch: db.Database.NewBatch(), db: db} }
+
+type vGateBatch struct {
+	database.Batch
+	db *vGateDB
+}
+
+func (b *vGateBatch) Write() error {
+	b.db.mu.Lock()
+	entered, release := b.db.entered, b.db.release
+	b.db.entered, b.db.release = nil, nil
+	b.db.mu.Unlock()
+	if entered != nil {
+		close(entered)
+		<-release
+	}
+	return b.Batch.Write()
 }
 
 // ---- system under test -------------------------------------------------------------------
@@ -361,7 +414,7 @@ func (s *vSUT) reset() {
 	chainState := s.u.nodes[0].chainState
 	s.rf = ruleFactory{rules: rules{validityWindow: s.window, maxProducerChunkWeight: s.limit}}
 	s.verifier = NewChunkVerifier[dsmrtest.Tx](chainState, s.rf)
-	s.db = memdb.New()
+	s.db = &vGateDB{Database: memdb.New()}
 	st, err := NewChunkStorage[dsmrtest.Tx](s.verifier, s.db, s.rf)
 	if err != nil {
 		s.t.Fatal(err)
@@ -488,6 +541,13 @@ func (a vAbs) String() string {
 }
 
 func (s *vSUT) certTok(tok string) (*ChunkCertificate, int) {
+	if strings.HasSuffix(tok, "q") {
+		i, err := strconv.Atoi(strings.TrimSuffix(tok, "q"))
+		if err != nil || s.u.get(i) == nil || s.u.get(i).partCert == nil {
+			return nil, 0
+		}
+		return s.u.get(i).partCert, i
+	}
 	if strings.HasSuffix(tok, "f") {
 		i, err := strconv.Atoi(strings.TrimSuffix(tok, "f"))
 		if err != nil || s.u.forged[i] == nil {
@@ -761,6 +821,59 @@ func (s *vSUT) exec(line string) (out string) {
 			return "err"
 		}
 		return "ok"
+	case "racesetmin":
+		if len(f) < 3 {
+			return "bad-op"
+		}
+		m, ok1 := num(f[1])
+		j, ok2 := num(f[2])
+		cj := s.u.get(j)
+		if !ok1 || !ok2 || cj == nil {
+			return "bad-op"
+		}
+		var save []ids.ID
+		for _, w := range f[3:] {
+			i, ok := num(w)
+			c := s.u.get(i)
+			if !ok || c == nil {
+				return "bad-op"
+			}
+			save = append(save, c.chunk.id)
+		}
+		gdb := s.db.(*vGateDB)
+		entered, release := gdb.gate()
+		setDone := make(chan error, 1)
+		go func() { setDone <- st.SetMin(int64(m), save) }()
+		var setErr error
+		finished := false
+		select {
+		case <-entered:
+		case setErr = <-setDone: // failed before writing its batch
+			finished = true
+			gdb.mu.Lock()
+			gdb.entered, gdb.release = nil, nil
+			gdb.mu.Unlock()
+		}
+		addDone := make(chan error, 1)
+		go func() { addDone <- st.AddLocalChunkWithCert(cj.chunk, nil) }()
+		if !finished {
+			// the batch write is held: give the concurrent add the chance to run if nothing stops it
+			select {
+			case err := <-addDone:
+				addDone <- err
+			case <-time.After(15 * time.Millisecond):
+			}
+			close(release)
+			setErr = <-setDone
+		}
+		if err := <-addDone; err != nil {
+			return "add-err"
+		}
+		if setErr != nil {
+			s.poisoned = true
+			return "err"
+		}
+		return "ok"
 	case "gather":
 		var l []int
 		for _, c := range st.GatherChunkCerts() {
@@ -899,14 +1012,26 @@ func (s *vSUT) exec(line string) (out string) {
 			return "bad-op"
 		}
 		for _, tok := range f[2:] {
-			if tok == "E" || tok == "S" || tok == "P" {
+			if tok == "E" || tok == "S" || tok == "P" || tok == "D1" || tok == "D2" {
 				continue
 			}
 			if j, ok := num(tok); !ok || s.u.get(j) == nil {
 				return "bad-op"
 			}
 		}
-		s.client.script = append([]string{}, f[2:]...)
+		s.client.script = s.client.script[:0]
+		s.client.dead = set.Set[ids.NodeID]{}
+		s.client.deadHits = 0
+		for _, tok := range f[2:] {
+			switch tok {
+			case "D1":
+				s.client.dead.Add(s.u.nodes[0].ID)
+			case "D2":
+				s.client.dead.Add(s.u.nodes[1].ID)
+			default:
+				s.client.script = append(s.client.script, tok)
+			}
+		}
 		vb := s.blocks[h]
 		type res struct {
 			eb  ExecutedBlock[dsmrtest.Tx]
